@@ -47,7 +47,12 @@ var fusingPairs = []struct{ a, b, reason string }{
 	{"@", "ident", "becomes an at-keyword"}, {"@", "function", "at-keyword + ("}, {"@", "url", "at-keyword"}, {"@", "-", "`@-` may start an at-keyword"},
 	{".", "number", "`.5`"}, {".", "percentage", "`.5%`"}, {".", "dimension", "`.5px`"},
 	{"+", "number", "signed number"}, {"+", "percentage", "signed percentage"}, {"+", "dimension", "signed dimension"},
-	{"/", "*", "opens a comment"},
+	{"/", "*", "opens a comment"}, {"/", "*=", "`/*=` opens a comment too: everything after it is swallowed"},
+	// CDC column of the §9 table for the rows whose first token absorbs dashes, with this tokenizer:
+	{"number", "-->", "`1-->` reads as the dimension 1 with unit `--`, then `>`"}, {"#", "-->", "`#-->` reads as the hash `--`, then `>`"},
+	{"@", "-->", "`@-->` reads as the at-keyword `--`, then `>`"},
+	// three delimiters that spell the CDO token
+	{"<", "!", "`<`, `!`, `--` written back to back read as `<!--`"},
 }
 
 // reasoned exception for R3 (one named site, one reason)
